@@ -71,7 +71,7 @@ Print Assumptions c01_session_read_sizes.
 Theorem c01_session_read_block :
   forall s n s1 rc, read_full s n = (s1, RBlock, rc) ->
     s1 = s /\ rc = None /\ bufptr s = [] /\ peeksize (core s) <= 0.
-Proof. intros s n s1 rc H. exact (proj1 (proj2 (read_full_thm s n s1 RBlock rc H)) eq_refl). Qed.
+Proof. exact read_block_thm. Qed.
 Print Assumptions c01_session_read_block.
 
 (* (c) Composition with the raw-endpoint theorem.  Two-session system (SessNet.v): any list of
